@@ -9,14 +9,14 @@ Definition cfgR := cfg_repaired.
 Definition ok_res (b : bk) (r : result core) : Prop := match r with Ok k => ok_for b (k_pts k) | Err _ => True end.
 
 (* ---- reading and converting ---- *)
-Lemma read_is_rep b buffer a : read_body cfgR b buffer a = rmap (rep b) (read_core buffer a).
+Lemma read_is_rep mm eo b buffer a : read_body (cfgR mm eo) b buffer a = rmap (rep b) (read_core buffer a).
 Proof. apply read_body_rep. Qed.
-Lemma read_backends_agree b buffer a : ok_res b (read_core buffer a) ->
-  rmap (observe b) (read_body cfgR b buffer a) = rmap obs_core (read_core buffer a).
+Lemma read_backends_agree mm eo b buffer a : ok_res b (read_core buffer a) ->
+  rmap (observe b) (read_body (cfgR mm eo) b buffer a) = rmap obs_core (read_core buffer a).
 Proof. intros H. unfold cfgR. rewrite read_body_rep. destruct (read_core buffer a) as [k|e]; cbn [rmap]; [|reflexivity].
   f_equal. now apply obs_rep. Qed.
-Lemma convert_agree b buffer a : ok_res b (read_core buffer a) ->
-  rmap (observe b) (read_convert cfgR b buffer a) = rmap obs_core (read_core buffer a).
+Lemma convert_agree mm eo b buffer a : ok_res b (read_core buffer a) ->
+  rmap (observe b) (read_convert (cfgR mm eo) b buffer a) = rmap obs_core (read_core buffer a).
 Proof. intros H. unfold cfgR. rewrite read_convert_rep. destruct (read_core buffer a) as [k|e]; cbn [rmap]; [|reflexivity].
   f_equal. now apply obs_rep. Qed.
 Lemma read_dims_positive buffer a k : read_core buffer a = Ok k -> kD k <> 0.
@@ -31,7 +31,7 @@ Proof. intros Ht. unfold at3, map3, t3, t2 in *. rewrite (nth_map_nil (map h) f 
   apply map_nth. Qed.
 Lemma nth_repeat' {X} (x d : X) n i : i < n -> nth i (repeat x n) d = x.
 Proof. revert i; induction n as [|n IH]; intros [|i] H; cbn [repeat nth]; try lia; [reflexivity|]. apply IH. lia. Qed.
-Lemma missing_iff_zero_conf b buffer a x : read_body cfgR b buffer a = Ok x -> ok_res b (read_core buffer a) ->
+Lemma missing_iff_zero_conf mm eo b buffer a x : read_body (cfgR mm eo) b buffer a = Ok x -> ok_res b (read_core buffer a) ->
   exists k, read_core buffer a = Ok k /\ observe b x = obs_core k /\
     forall f p t d, t < length (nth p (nth f (k_pts k) []) []) -> d < kD k ->
       nth d (at3 [] (rows (fun w => negb (is_zero32 w)) (kD k) (k_pts k)) f p t) true
@@ -45,41 +45,41 @@ Lemma bk_eq_dec_np (b : bk) : b = Np \/ b <> Np.
 Proof. destruct b; [now left|right; discriminate|right; discriminate]. Qed.
 (* ---- operations on the representation of any content ---- *)
 Section Ops.
-Variables (b : bk) (k : core).
+Variables (mm : mmkind) (eo : bool) (b : bk) (k : core).
 Hypothesis HD : kD k <> 0.
 Hypothesis Hok : ok_for b (k_pts k).
 
 Lemma select_frames_agree idx : idx <> [] -> in_range (kF k) idx ->
-  rmap (observe b) (select_frames cfgR b idx (rep b k)) = Ok (obs_core (ref_frames (k_fps k) (map Z.to_nat idx) k)).
+  rmap (observe b) (select_frames (cfgR mm eo) b idx (rep b k)) = Ok (obs_core (ref_frames (k_fps k) (map Z.to_nat idx) k)).
 Proof. intros Hne Hin. unfold cfgR. rewrite select_frames_rep by assumption. cbn [rmap]. f_equal.
   apply obs_rep. now apply ok_for_gat. Qed.
 Lemma get_points_agree idx : idx <> [] -> in_range (kT k) idx ->
-  rmap (observe b) (get_points cfgR b idx (rep b k)) = Ok (obs_core (ref_points (map Z.to_nat idx) k)).
+  rmap (observe b) (get_points (cfgR mm eo) b idx (rep b k)) = Ok (obs_core (ref_points (map Z.to_nat idx) k)).
 Proof. intros Hne Hin. unfold cfgR. rewrite get_points_rep by assumption. cbn [rmap]. f_equal.
   apply obs_rep. now apply ok_for_gat2. Qed.
 Lemma getitem_slice_agree s : pos_step s ->
-  rmap (observe b) (getitem_slice cfgR b s (rep b k)) = rmap (fun ix => obs_core (ref_frames (k_fps k) ix k)) (slice_idx (kF k) s).
+  rmap (observe b) (getitem_slice (cfgR mm eo) b s (rep b k)) = rmap (fun ix => obs_core (ref_frames (k_fps k) ix k)) (slice_idx (kF k) s).
 Proof. intros Hs. unfold cfgR. rewrite getitem_slice_gen by exact HD. rewrite ix_slice_pos by exact Hs.
   destruct (slice_idx (kF k) s) as [ix|e]; cbn [rmap]; [|reflexivity]. f_equal. apply obs_rep. now apply ok_for_gat. Qed.
-Lemma getitem_slice_zero_step s : s_step s = Some 0%Z -> getitem_slice cfgR b s (rep b k) = Err Value.
+Lemma getitem_slice_zero_step s : s_step s = Some 0%Z -> getitem_slice (cfgR mm eo) b s (rep b k) = Err Value.
 Proof. intros Hs. unfold cfgR. rewrite getitem_slice_gen by exact HD. now rewrite slice_zero_step. Qed.
 Lemma slice_step_agree by_ : (0 < by_)%Z ->
-  rmap (observe b) (slice_step cfgR b by_ (rep b k)) =
+  rmap (observe b) (slice_step (cfgR mm eo) b by_ (rep b k)) =
   Ok (obs_core (ref_frames (fps_div (k_fps k) by_) (filter (fun i => (Z.of_nat i mod by_ =? 0)%Z) (seq 0 (kF k))) k)).
 Proof. intros Hb. unfold cfgR. rewrite slice_step_gen by exact HD. rewrite ix_slice_pos by exact Hb.
   rewrite slice_idx_every by exact Hb. cbn [rmap]. f_equal. apply obs_rep. now apply ok_for_gat. Qed.
-Lemma slice_step_zero : slice_step cfgR b 0 (rep b k) = Err Value.
+Lemma slice_step_zero : slice_step (cfgR mm eo) b 0 (rep b k) = Err Value.
 Proof. unfold cfgR. rewrite slice_step_gen by exact HD. now rewrite slice_zero_step. Qed.
 Lemma getitem_int_agree i :
-  rmap (observe3 b) (getitem_int cfgR b i (rep b k)) = rmap (fun j => fobs_core (ref_frame j k)) (norm_wrap (kF k) i).
+  rmap (observe3 b) (getitem_int (cfgR mm eo) b i (rep b k)) = rmap (fun j => fobs_core (ref_frame j k)) (norm_wrap (kF k) i).
 Proof. unfold cfgR. rewrite getitem_int_rep by exact HD. destruct (norm_wrap (kF k) i) as [j|e]; cbn [rmap]; [|reflexivity].
   f_equal. apply fobs_rep. destruct b; cbn [ok_for2 ok_for] in *; trivial. cbn [ref_frame q_pts]. now apply tf_safe_nth. Qed.
-Lemma getitem_int_out_of_range i : (i < - Z.of_nat (kF k) \/ Z.of_nat (kF k) <= i)%Z -> getitem_int cfgR b i (rep b k) = Err Index.
+Lemma getitem_int_out_of_range i : (i < - Z.of_nat (kF k) \/ Z.of_nat (kF k) <= i)%Z -> getitem_int (cfgR mm eo) b i (rep b k) = Err Index.
 Proof. intros H. unfold cfgR. rewrite getitem_int_rep by exact HD. now rewrite norm_wrap_out. Qed.
-Lemma copy_agree : rmap (observe b) (copy cfgR b (rep b k)) = Ok (obs_core k).
+Lemma copy_agree : rmap (observe b) (copy (cfgR mm eo) b (rep b k)) = Ok (obs_core k).
 Proof. unfold cfgR. rewrite copy_rep by exact HD. cbn [rmap]. f_equal. now apply obs_rep. Qed.
 Lemma zero_filled_agree :
-  rmap (fun y => forget_valid (observe b y)) (zero_filled cfgR b (rep b k)) = Ok (forget_valid (obs_core (ref_zero k))).
+  rmap (fun y => forget_valid (observe b y)) (zero_filled (cfgR mm eo) b (rep b k)) = Ok (forget_valid (obs_core (ref_zero k))).
 Proof. unfold cfgR. destruct (bk_eq_dec_np b) as [->|Hb].
   - rewrite zero_filled_np by exact HD. reflexivity.
   - rewrite zero_filled_mt by assumption. cbn [rmap]. f_equal. unfold forget_valid, observe, gobserve, obs_core, ref_zero.
